@@ -510,7 +510,14 @@ impl<'c, KD: Kind, const N: usize> MapEng<'c, KD, N> {
                             .collect();
                         // for untracked into_values the yielded values identify the entries (values are unique per step)
                         let rest: Vec<(u8, u32)> = if $proj == 2 && !KD::TRACKED {
-                            before.iter().filter(|(_, e)| !yielded.iter().any(|y| y.val == e.val as i64)).map(|(k, e)| (*k, e.val)).collect()
+                            // multiset subtraction: each yielded value accounts for one entry
+                            let mut all: Vec<(u8, u32)> = before.iter().map(|(k, e)| (*k, e.val)).collect();
+                            for y in yielded.iter() {
+                                if let Some(p) = all.iter().position(|(_, v)| *v as i64 == y.val) {
+                                    all.remove(p);
+                                }
+                            }
+                            all
                         } else {
                             rest
                         };
